@@ -487,6 +487,9 @@ func c16Run(s *sim.Sim, p *sim.Params) {
 				o.kind = "hub-broadcast"
 			case r < 12:
 				o.kind = "restore"
+				if s.Choose(sim.SWork, 3) == 0 {
+					o.kind = "hub-broadcast-burst" // a route handler fanning out many messages at once
+				}
 			default:
 				o.kind = "sleep"
 				o.d = []time.Duration{time.Millisecond, 300 * time.Millisecond, 2500 * time.Millisecond}[s.Choose(sim.SWork, 3)]
@@ -533,6 +536,13 @@ func c16Run(s *sim.Sim, p *sim.Params) {
 					u := w.uniq("a")
 					w.bcasts[u] = &c16bcast{u: u, room: o.room, call: s.Stamp(), exclude: -1}
 					hub.BroadcastToRoom(o.room, []byte(fmt.Sprintf(`{"type":"json","room":%q,"u":%q}`, o.room, u)), nil)
+				case "hub-broadcast-burst":
+					s.Probe("broadcast-burst")
+					for k := 0; k < 300; k++ {
+						u := w.uniq("q")
+						w.bcasts[u] = &c16bcast{u: u, call: s.Stamp(), exclude: -1}
+						hub.Broadcast([]byte(fmt.Sprintf(`{"type":"json","u":%q}`, u)))
+					}
 				case "hub-broadcast":
 					u := w.uniq("x")
 					w.bcasts[u] = &c16bcast{u: u, call: s.Stamp(), exclude: -1}
